@@ -474,16 +474,15 @@ def sec_h3(tier, seed, family, part, nparts):
     sec = Sec()
     if tier == "quick":
         qs = [None, "0", "0.5"]
-        rs = RANGES[family][:6] if family != "language" else ["en", "en-US", "de", "enm", "EN-us", "*"]
-        if family == "mime":
-            rs = ["text/html", "text/*", "*/*", "text/html;level=1", "image/png", "TEXT/HTML"]
-        if family == "charset":
-            rs = ["utf-8", "UTF8", "latin1", "us-ascii", "x-unknown", "*"]
+        rs = {"generic": ["gzip", "GZIP", "br", "identity", "*"],
+              "mime": ["text/html", "text/*", "*/*", "text/html;level=1", "image/png"],
+              "language": ["en", "en-US", "de", "enm", "*"],
+              "charset": ["utf-8", "UTF8", "latin1", "x-unknown", "*"]}[family]
         ol = offer_lists(family, 2)
     else:
-        qs = [None, "0", "0.5", "0.001", "0.8"]
+        qs = [None, "0", "0.5", "0.001"]
         rs = RANGES[family]
-        ol = offer_lists(family, 3)
+        ol = offer_lists_h2(family, "quick")
     items = [(r, q) for r in rs for q in qs]
     i = 0
     for combo in itertools.product(items, repeat=3):
@@ -555,9 +554,9 @@ def run(tier, seed, reg=None):
               "region tags with '-' and '_', 3-letter primary tag sharing a prefix, '*'; charset aliases; codings), offers "
               f"{ {k: len(v) for k, v in OFFERS.items()} }; q in {{absent, 0, 0.001, 0.5, 1, 1.000}} + malformed/out-of-range "
               f"{Q_INVALID!r} + empty; headers of 1 item (all q, 4 spacing/case styles of ';q='), 2 items (both orders, "
-              f"{'6 q values' if tier == 'quick' else 'all q values'}), 3 items ({'6 ranges x 3 q' if tier == 'quick' else 'all ranges x 5 q'}, "
+              f"{'6 q values' if tier == 'quick' else 'all q values'}), 3 items ({'5 ranges x 3 q' if tier == 'quick' else 'all ranges x 4 q'}, "
               "every order, alternately parsed and built from tuples); every ordered list of <= 3 distinct offers "
-              f"({'for 2-item headers: <= 2 plus every 3-subset in two orders; for 3-item headers: <= 2' if tier == 'quick' else '<= 3'}); seeded random headers of 2-6 items; per header: kept "
+              f"({'for 2-item headers: <= 2 plus every 3-subset in two orders; for 3-item headers: <= 2' if tier == 'quick' else 'all for 1- and 2-item headers; for 3-item headers: <= 2 plus every 3-subset in two orders'}); seeded random headers of 2-6 items; per header: kept "
               "items + order + best, quality/[]/in/find for every offer, best_match with and without default")
     c = Collector(RULE, domain, max_failures=60)
     jobs = _jobs(tier, seed)
